@@ -1,10 +1,12 @@
 import SygmaModel.Drv.C09
+import SygmaModel.Drv.C10
 import SygmaModel.Drv.C14
 namespace Sygma.Drv
 
 def dispatch (prop op : String) (args : List String) (impl : String) : Option Verdict :=
   match prop with
   | "C09" => C09.handle op args impl
+  | "C10" => C10.handle op args impl
   | "C14" => C14.handle op args impl
   | _ => none
 
